@@ -179,3 +179,25 @@ Theorem C07_pretextview_gaps : forall g prefix n d input pretext o,
     mid = [g] \/ Proofs.NeighbourGaps.same_neighbours input x mid y.
 Proof. exact Proofs.PretextViewGaps.pretextview_gaps. Qed.
 Print Assumptions C07_pretextview_gaps.
+
+(* ... and the same for maps with ANY tags (Painted chromosomes, haplotypes,
+   Unloc, Haplotig, name tags ...): the proof of C07_pretextview_gaps never used
+   that the baits are untagged -- on every map that TILES the scaffolds it
+   shows, whenever the run completes, every gap run between two consecutive
+   output fragments is exactly the join gap or exactly the input gap run between
+   the same two input neighbours.  (Whether the run completes is C02's matter:
+   C02_painted_maps_complete for Painted maps.) *)
+From Tola Require Proofs.PretextViewGapsPainted.
+Theorem C07_pretextview_gaps_any_tags : forall g prefix n d input pretext o,
+  0 < d -> d <= n ->
+  Forall Proofs.Completion.input_ok input ->
+  NoDup (map fst input) ->
+  NoDup (map key_of (Model.RemapSpec.in_frags input)) ->
+  Forall (Proofs.Completion.scaffold_tiled n d (Proofs.CoreKept.baits_of pretext)) input ->
+  remap repaired g prefix (n, d) input pretext = Ok o ->
+  forall a sc x mid y,
+    In a (out_asms o) -> In sc (oa_scaffolds a) ->
+    Proofs.NeighbourGaps.consecutive (sc_rows sc) x mid y ->
+    mid = [g] \/ Proofs.NeighbourGaps.same_neighbours input x mid y.
+Proof. exact Proofs.PretextViewGapsPainted.pretextview_gaps_any_tags. Qed.
+Print Assumptions C07_pretextview_gaps_any_tags.
